@@ -68,7 +68,7 @@ def num_literal(rng):
         v = 10 ** rng.uniform(-8, 8)
         return repr(v)
     if r < 0.95:
-        return rng.choice(["1e300", "1e-300", "1e400", "1e-400", "3.141592653589793", "2.718281828459045"])
+        return rng.choice(["1e300", "1e-300", "1e-400", "3.141592653589793", "2.718281828459045", "1e18", "1e19", "1e400"])
     v = struct.unpack(">d", struct.pack(">Q", rng.getrandbits(62) | (rng.getrandbits(1) << 62)))[0]
     if v != v or v in (float("inf"), float("-inf")):
         return "1.25"
@@ -155,6 +155,8 @@ class Gen:
                         parts.append(rng.choice(["2", "3", "-1", "0", self.small_int(), "2 ^ 2", "-2", "(1 + 1)"]))
                     else:
                         parts.append("FLOOR(" + self.num_operand(depth - 1) + ") MOD 4")
+                elif op == "MOD" and rng.random() < 0.85:        # x MOD 0 is NaN: keep the modulus away from zero
+                    parts.append(rng.choice(["2", "3", "7", "0.3", "2.5", "-4", "(ABS(" + self.num_atom() + ") + 1)"]))
                 else:
                     parts.append(self.num_operand(depth - 1))
             if rng.random() < 0.12:                  # no blanks around symbolic operators
@@ -170,6 +172,8 @@ class Gen:
                             "ARCTAN"])
             self.note("fn:" + f)
             arg = self.num_expr(depth - 1)
+            if f in ("LOG", "LOG10", "SQRT") and rng.random() < 0.85:
+                arg = f"ABS({arg})" + (" + 1" if f != "SQRT" and rng.random() < 0.7 else "")
             if f == "EXP":
                 arg = f"({arg}) / 1e3" if rng.random() < 0.5 else self.small_int()
             if rng.random() < 0.12:                   # function applied to a bare factor
@@ -339,6 +343,14 @@ def gen_program(rng, size=20, rich=True):
         if decl:
             g.note("DIM")
             body.append(kw(rng, "DIM") + " " + ", ".join(decl))
+    # --- most programs start from non-zero variables (zero is the default and makes many results trivial)
+    if rng.random() < 0.8:
+        init = [f"{v} = {rng.choice(['', '-'])}{num_literal(rng)}" for v in NUM_VARS if rng.random() < 0.7]
+        for k in range(0, len(init), 6):
+            body.append(" : ".join(init[k:k + 6]))
+        body.append(" : ".join(f"PUT({num_literal(rng)}, {a}" + (f", {b})" if b is not None else ")")
+                               for a, b in [(rng.randint(0, 5), rng.choice([None, rng.randint(0, 5)])) for _ in range(4)]))
+        body.append(" : ".join(f"{v} = {str_literal(rng)}" for v in STR_VARS if rng.random() < 0.6) or "REM no strings")
     # --- data pool
     n_data = rng.choice([0, 0, 3, 6, 12])
     data_items = []
